@@ -23,7 +23,7 @@
     * column order of concatenations (python set) ..................... `RecsEquiv`, `concat_keys_perm`, `concat_any_order`, `equiv_observe`
     * stretch .......................................................... `concat_assoc`, `mask_col`
     * review round 2: masks against a reading without `zipper` ........ `abs_getMask_plain`, `mask_plain_exact`, `mask_one_row_repeats`
-                      rows + header, ragged rows ....................... `new_rows_ragged`, `spec_new_rows_ragged`, `new_rows_ragged_header1`
+                      rows + header, ragged rows ....................... `new_rows_ragged`, `spec_new_rows_ragged`, `new_rows_header1`
                       aliasing (handles as pointers, TableAlias.lean) .. `rframe_step`, `ralias_shared`, `rrect_step`, `rabs_step`, `rstep_noalias`, `rrun_noalias`
 -/
 import PygProofs.Lemmas.TableAbsHeap
@@ -741,8 +741,13 @@ theorem new_rows (cs : List String) (rs : List (List Cell)) (hcs : cs.Nodup) (hk
       rw [this]
       simp only
       rw [bcast_self rfl, bcast_self (by simp), ofRows_eq_zip]
+    have hm : headerMisfit cs ((List.range cs.length).map fun j =>
+        (r0 :: rest).map fun r => r.getD j Cell.none) = false := by
+      unfold headerMisfit
+      simp only [List.length_map, List.length_range]
+      by_cases h : cs.length = 1 <;> simp [h]
     have hdc : dataCols (.rows (r0 :: rest)) (some cs) = some (.ok (ofRows cs (r0 :: rest))) := by
-      simp only [dataCols, hz, hz2, ofPairs_self_of_nodup _ hnd]
+      simp only [dataCols, hz, hm, Bool.false_eq_true, if_false, hz2, ofPairs_self_of_nodup _ hnd]
     have hne : ofRows cs (r0 :: rest) ≠ [] := by
       intro he
       have := ofRows_cols cs (r0 :: rest)
@@ -1736,7 +1741,7 @@ transposed columns with the header (a single transposed column is repeated under
     (for `c = 1` this says: all rows of length 1 are taken as they are);
   * (failure, `c ≠ 1`) the constructor raises `ValueError` if and only if some row has a length that is
     neither `c` nor 1.  Together: for `c ≠ 1` the result is determined for EVERY list of rows.
-For a header of ONE name the outer `zipper` repeats the name instead: see `new_rows_ragged_header1`. -/
+For a header of ONE name see `new_rows_header1` (several cells under one name: `ValueError`, repaired code). -/
 theorem new_rows_ragged (cs : List String) (rs : List (List Cell)) (hcs : cs.Nodup) (hk : cs ≠ []) :
     ((∀ r ∈ rs, r.length = cs.length ∨ r.length = 1) →
       construct (.rows rs) (some cs) [] = some (.ok (ofRows cs (rs.map (bcast cs.length)))) ∧
@@ -1813,29 +1818,27 @@ example : construct (.rows [[.int 1, .int 2, .int 3], [.int 3]]) (some ["a", "b"
     construct (.rows [[], [.int 3]]) (some ["a", "b"]) [] = some (.error .value) := ⟨rfl, rfl, rfl⟩
 
 /-- **rows under a header of ONE name** (`dictable([[1,2,3],[3],[7,8,9]], columns = ['a'])`), the case
-`new_rows_ragged` leaves open.  The outer `zipper` repeats the single name for every transposed column and
-`dict` keeps the last pair, so there is no error from the header:
-  * `ValueError` if and only if two rows have different lengths other than 1 (the inner `zipper`);
-  * otherwise, with `n` the common length (`lens`): ONE column holding, per row, its LAST cell (the only
-    cell of a length-1 row) — or no record at all when `n = 0` (only rows of length 0 / 1, at least one
-    empty, or no rows). This is NOT what a list-of-rows reading suggests (cells 1..n-1 of every row are
-    dropped without an error); it is what the modelled code computes (`dict(zipper(['a'], cols))`). -/
-theorem new_rows_ragged_header1 (k : String) (rs : List (List Cell)) :
-    (construct (.rows rs) (some [k]) [] = some (.error .value) ↔
-      ∃ a ∈ rs, ∃ b ∈ rs, a.length ≠ 1 ∧ b.length ≠ 1 ∧ a.length ≠ b.length) ∧
-    (∀ n, lens (rs.map (·.length)) = .ok n →
+`new_rows_ragged` leaves open — repaired code (fix C01-H2 of round h1; the statement before the fix, `new_rows_ragged_header1`, PROVED the
+quirk that the single name was repeated across the cells and every row kept only its LAST cell: `{'a': [3, 3, 9]}`):
+  * `ValueError` if and only if some row has two or more cells — exactly the rows a one-column list-of-rows reading cannot hold;
+  * otherwise (every row has one cell or none; `n ≤ 1` their common length): ONE column holding each row's cell — or no record at
+    all when `n = 0` (some row is empty: `zip` stops at the shortest, as for every header). -/
+theorem new_rows_header1 (k : String) (rs : List (List Cell)) :
+    (construct (.rows rs) (some [k]) [] = some (.error .value) ↔ ∃ r ∈ rs, 2 ≤ r.length) ∧
+    (∀ n, lens (rs.map (·.length)) = .ok n → n ≤ 1 →
       construct (.rows rs) (some [k]) [] =
         some (.ok [(k, if n = 0 then [] else rs.map fun r => (bcast n r).getD (n - 1) .none)])) := by
-  have hok : ∀ n, lens (rs.map (·.length)) = .ok n →
+  have hok : ∀ n, lens (rs.map (·.length)) = .ok n → n ≤ 1 →
       construct (.rows rs) (some [k]) [] =
         some (.ok [(k, if n = 0 then [] else rs.map fun r => (bcast n r).getD (n - 1) .none)]) := by
-    intro n hl
+    intro n hl hn1
     by_cases hne : rs = []
     · subst hne
       have : n = 0 := by simpa [lens] using hl.symm
       subst this
       exact (new_rows [k] [] (by simp) (by simp) (by intro r hr; cases hr)).1
     · have hdc := dataCols_rows_header1 k rs hne n hl
+      rw [if_neg (by omega)] at hdc
       by_cases h0 : n = 0
       · subst h0
         simp only [if_true] at hdc ⊢
@@ -1843,34 +1846,56 @@ theorem new_rows_ragged_header1 (k : String) (rs : List (List Cell)) :
         rfl
       · simp only [if_neg h0] at hdc ⊢
         exact construct_of_dataCols_single k _ hdc
+  have hbig : ∀ n, lens (rs.map (·.length)) = .ok n → 1 < n → rs ≠ [] →
+      construct (.rows rs) (some [k]) [] = some (.error .value) := by
+    intro n hl hn hne
+    apply construct_of_dataCols_error
+    rw [dataCols_rows_header1 k rs hne n hl, if_pos hn]
   refine ⟨?_, hok⟩
   constructor
   · intro herr
     cases hl : lens (rs.map (·.length)) with
-    | ok n => rw [hok n hl] at herr; cases herr
+    | ok n =>
+      by_cases hn : n ≤ 1
+      · rw [hok n hl hn] at herr; cases herr
+      · have hne : rs.map (·.length) ≠ [] := by
+          intro h; rw [h] at hl; simp [lens] at hl; omega
+        obtain ⟨r, hr, hrl⟩ := List.mem_map.1 (lens_ok_mem hl (by omega) hne)
+        exact ⟨r, hr, by omega⟩
+    | error e =>
+      obtain ⟨a, ha, b, hb, h1, h2, h3⟩ := (lens_error_iff _).1 (by rw [hl, lens_error_value hl])
+      obtain ⟨a', ha', rfl⟩ := List.mem_map.1 ha
+      obtain ⟨b', hb', rfl⟩ := List.mem_map.1 hb
+      by_cases h : 2 ≤ a'.length
+      · exact ⟨a', ha', h⟩
+      · exact ⟨b', hb', by omega⟩
+  · rintro ⟨r, hr, h2⟩
+    have hne : rs ≠ [] := List.ne_nil_of_mem hr
+    cases hl : lens (rs.map (·.length)) with
+    | ok n =>
+      have hrn : r.length = n := by
+        rcases lens_ok hl r.length (List.mem_map.2 ⟨r, hr, rfl⟩) with h | h
+        · exact h
+        · omega
+      exact hbig n hl (by omega) hne
     | error e =>
       have := lens_error_value hl
       subst this
-      obtain ⟨a, ha, b, hb, h1, h2, h3⟩ := (lens_error_iff _).1 hl
-      obtain ⟨a', ha', rfl⟩ := List.mem_map.1 ha
-      obtain ⟨b', hb', rfl⟩ := List.mem_map.1 hb
-      exact ⟨a', ha', b', hb', h1, h2, h3⟩
-  · rintro ⟨a, ha, b, hb, h1, h2, h3⟩
-    have hl : lens (rs.map (·.length)) = .error .value :=
-      (lens_error_iff _).2 ⟨_, List.mem_map.2 ⟨a, ha, rfl⟩, _, List.mem_map.2 ⟨b, hb, rfl⟩, h1, h2, h3⟩
-    obtain ⟨r0, rest, rfl⟩ := List.exists_cons_of_ne_nil (List.ne_nil_of_mem ha)
-    apply construct_of_dataCols_error
-    have hz : zipper Cell.none (r0 :: rest) = .error .value := by
-      unfold zipper
-      rw [hl]
-    simp only [dataCols, hz]
+      obtain ⟨r0, rest, rfl⟩ := List.exists_cons_of_ne_nil hne
+      apply construct_of_dataCols_error
+      have hz : zipper Cell.none (r0 :: rest) = .error .value := by
+        unfold zipper
+        rw [hl]
+      simp only [dataCols, hz]
 
-example : lens (([[.int 1, .int 2, .int 3], [.int 3], [.int 7, .int 8, .int 9]] : List (List Cell)).map (·.length)) = .ok 3 := by
+example : lens (([[.int 1], [.int 3], [.int 7]] : List (List Cell)).map (·.length)) = .ok 1 := by
   rfl
-/-- three-cell rows under a one-name header: the last cell of each row -/
+/-- three-cell rows under a one-name header: rejected, as under a two-name header (was `{'a': [3, 3, 9]}`) -/
 example : construct (.rows [[.int 1, .int 2, .int 3], [.int 3], [.int 7, .int 8, .int 9]]) (some ["a"]) [] =
-    some (.ok [("a", [.int 3, .int 3, .int 9])]) := by rfl
+    some (.error .value) := by rfl
 example : construct (.rows [[.int 1, .int 2, .int 3], [.int 3, .int 4]]) (some ["a"]) [] = some (.error .value) := by rfl
+example : construct (.rows [[.int 1], [.int 3], [.int 7]]) (some ["a"]) [] =
+    some (.ok [("a", [.int 1, .int 3, .int 7])]) := by rfl
 
 /-! ### review round 2 (3): aliasing — handles as pointers (PygModel/TableAlias.lean)
 
